@@ -40,11 +40,13 @@ Outcomes == {"keep", "mutC", "mutM", "freshDeep", "freshShallow"}
 Flag == [cs : BOOLEAN, ms : BOOLEAN, cd : BOOLEAN, sd : BOOLEAN]
 
 \* order of calls inside one generation (advance())
+\* @type: Seq(Str);
 GenSeq == <<"pselect", "log_pselect", "mate", "log_mate", "evaluate", "log_evaluate",
             "sselect", "log_sselect", "tick">>
 IsOp(c)  == c \in {"pselect", "mate", "evaluate", "sselect", "evalinit"}
 IsLog(c) == c \in {"log_pselect", "log_mate", "log_evaluate", "log_sselect", "log_initialize"}
 
+NoOc == [s \in Slots |-> "none"]       \* calls that are not operator calls carry no outcome
 Rec(call, oc) == IF RecordHist THEN Append(hist, [call |-> call, rep |-> lrep, t |-> t, oc |-> oc]) ELSE hist
 
 Init == /\ pc = "idle"
@@ -57,9 +59,10 @@ Init == /\ pc = "idle"
 BeginRep == /\ pc = "idle" /\ rep < nrep
             /\ lrep' = lrep + 1 /\ rep' = rep + 1
             /\ pc' = "reset"
-            /\ hist' = Rec("begin_rep", <<>>)
+            /\ hist' = Rec("begin_rep", NoOc)
             /\ UNCHANGED <<nrep, ngen, loginit, gen, t, al>>
 
+\* @type: ({cs: Bool, ms: Bool, cd: Bool, sd: Bool}) => {cs: Bool, ms: Bool, cd: Bool, sd: Bool};
 ResetFlags(f) == CASE ResetMode = "deep"    -> [f EXCEPT !.cs = FALSE, !.ms = FALSE, !.cd = f.sd]
                    [] ResetMode = "shallow" -> [f EXCEPT !.cs = FALSE, !.ms = TRUE,  !.cd = f.sd]
                    [] OTHER                 -> [f EXCEPT !.cs = TRUE,  !.ms = TRUE,  !.cd = f.sd]
@@ -67,10 +70,11 @@ Reset == /\ pc = "reset"
          /\ al' = [s \in Slots |-> ResetFlags(al[s])]
          /\ t' = 0 /\ gen' = 0
          /\ pc' = "evalinit"
-         /\ hist' = Rec("reset", <<>>)
+         /\ hist' = Rec("reset", NoOc)
          /\ UNCHANGED <<nrep, ngen, loginit, rep, lrep>>
 
-\* effect of one operator outcome on one slot
+\* effect of one operator outcome on one slot (type annotations are read by Apalache only)
+\* @type: ({cs: Bool, ms: Bool, cd: Bool, sd: Bool}, Str) => Set({cs: Bool, ms: Bool, cd: Bool, sd: Bool});
 Apply(f, o) ==
     CASE o = "keep"         -> {f}
       [] o = "mutC"         -> {[f EXCEPT !.cd = TRUE, !.sd = f.sd \/ f.cs]}
@@ -86,6 +90,7 @@ NextPc(c) == CASE c = "evalinit" -> IF loginit THEN "log_initialize" ELSE "tick0
                [] c = "sselect" -> "log_sselect" [] c = "log_sselect" -> "tick"
 
 \* an operator call: the environment picks an outcome per slot
+\* @type: ({cs: Bool, ms: Bool, cd: Bool, sd: Bool}, {cs: Bool, ms: Bool, cd: Bool, sd: Bool}) => Bool;
 OpEffect(f, g) == g \in UNION {Apply(f, o) : o \in Outcomes}
 OpCall(c) == /\ pc = c /\ IsOp(c)
              /\ IF RecordHist
@@ -101,25 +106,25 @@ OpCall(c) == /\ pc = c /\ IsOp(c)
 \* a logbook call: observes, changes nothing
 LogCall(c) == /\ pc = c /\ IsLog(c)
               /\ pc' = NextPc(c)
-              /\ hist' = Rec(c, <<>>)
+              /\ hist' = Rec(c, NoOc)
               /\ UNCHANGED <<nrep, ngen, loginit, rep, gen, t, lrep, al>>
 
 \* t_cur += 1 after the initial evaluation, then advance(ngen)
 Tick0 == /\ pc = "tick0"
          /\ t' = t + 1
          /\ pc' = IF ngen > 0 THEN "pselect" ELSE "idle"
-         /\ hist' = Rec("tick0", <<>>)
+         /\ hist' = Rec("tick0", NoOc)
          /\ UNCHANGED <<nrep, ngen, loginit, rep, gen, lrep, al>>
 
 Tick == /\ pc = "tick"
         /\ t' = t + 1 /\ gen' = gen + 1
         /\ pc' = IF gen + 1 < ngen THEN "pselect" ELSE "idle"
-        /\ hist' = Rec("tick", <<>>)
+        /\ hist' = Rec("tick", NoOc)
         /\ UNCHANGED <<nrep, ngen, loginit, rep, lrep, al>>
 
 Finished == /\ pc = "idle" /\ rep = nrep
             /\ pc' = "finished"
-            /\ hist' = Rec("final", <<>>)
+            /\ hist' = Rec("final", NoOc)
             /\ UNCHANGED <<nrep, ngen, loginit, rep, gen, t, lrep, al>>
 
 Next == \/ BeginRep \/ Reset \/ Tick0 \/ Tick \/ Finished
